@@ -66,6 +66,13 @@ class P:
                 for _k in range(3):
                     ops_.append("RT:" + hx(progs.render_full(tree(rng.choice([2, 3])))))
             cases += flow.mk_cases("rereg", [" ".join(ops_)], start=len([c for c in cases if c.gen == "rereg"]))
+        # trees as high as the parser returns them: their rendering must still read back as the same tree
+        deep = []
+        for k in (253, 254, 255):
+            deep += ["!" * k + "a", "- " * k + "a", "[" * k + "a" + "]" * k, "f(" * k + "a" + ")" * k, "{1:" * k + "a" + "}" * k,
+                     "c ? b : " * k + "a", "b = " * k + "a", "[-" * (k // 2) + "a" + "]" * (k // 2), "1 + f(" * (k // 2) + "a" + ")" * (k // 2),
+                     "a" + " ++" * k, "(" * 200 + "a" + " + 1)" * 200]
+        cases += flow.mk_cases("deep", ["RT:" + hx(p_) for p_ in deep])
         n = 3000 if tier == "quick" else 300000
         rnd = []
         for _ in range(n):
